@@ -75,17 +75,26 @@ type vOp struct {
 	minimal bool // data is the minimal script-number encoding of num
 }
 
-// vConcByte returns b; under the symbolic executor the result is a constant (the byte is
-// determined by the path condition whenever it comes from the literal part of the script), which
-// keeps the parser's control flow and offsets concrete.  One solver-resolved decision per bit.
+// vNoteLen, vByteAt, vSub: plain Go below; under the symbolic executor they are computed by
+// engine/symex/intrinsics_script.go with the SAME meaning (no-op, b[i], b[lo:hi] used read-only)
+// but positions inside a byte string assembled from literal bytes and opaque chunks of known
+// length are resolved syntactically: a literal script byte is a constant, a whole chunk is the
+// chunk's own term.  Without them every opcode comparison is a string-solver query.
+func vNoteLen(b []byte)                {}
+func vByteAt(b []byte, i int) byte     { return b[i] }
+func vSub(b []byte, lo, hi int) []byte { return b[lo:hi] }
+
+// vConcByte returns b; under the symbolic executor the result is a constant whenever the path
+// condition determines the byte (always the case for the literal part of a script), which keeps
+// the parser's control flow and offsets concrete.  With vByteAt the argument already is a
+// constant for builder-made scripts and no decision is taken.
 func vConcByte(b byte) byte {
-	var r byte
-	for bit := 7; bit >= 0; bit-- {
-		if b&(byte(1)<<uint(bit)) != 0 {
-			r |= byte(1) << uint(bit)
+	for k := 0; k < 256; k++ {
+		if b == byte(k) {
+			return byte(k)
 		}
 	}
-	return r
+	return 0 // unreachable
 }
 
 // vDecodeNum decodes a script number (little endian, sign-magnitude) of at most 5 bytes.
@@ -121,7 +130,7 @@ func vParseScript(s []byte) (ops []vOp, ok bool) {
 	}
 	i := 0
 	for i < n {
-		op := vConcByte(s[i])
+		op := vConcByte(vByteAt(s, i))
 		i++
 		switch {
 		case op >= 1 && op <= 75:
@@ -129,14 +138,14 @@ func vParseScript(s []byte) (ops []vOp, ok bool) {
 			if i+l > n {
 				return nil, false
 			}
-			d := s[i : i+l]
+			d := vSub(s, i, i+l)
 			i += l
 			o := vOp{op: op, push: true, data: d}
 			if l <= 5 {
 				// small pushes are literal bytes of the builder: make them concrete
 				c := make([]byte, l)
 				for k := 0; k < l; k++ {
-					c[k] = vConcByte(d[k])
+					c[k] = vConcByte(vByteAt(d, k))
 				}
 				o.data = c
 				o.isNum = true
